@@ -339,6 +339,15 @@ let handle (case : sx) : string =
       (match rd_run b f (rd_new b f) ops' with
        | None -> id ^ "\t(hang)"
        | Some rs -> id ^ "\t" ^ paren ("ok" :: List.map atom_of_bytes rs))
+  | L (A id :: A "pm" :: pat :: [L names]) ->
+      id ^ "\t" ^ paren (List.map (fun nm -> bl (pm (by_of nm) (by_of pat))) names)
+  | L (A id :: A "glob" :: tree :: [L pats]) ->
+      let rec node_of = function
+        | L [A "f"; nm] -> NFile (by_of nm)
+        | L [A "d"; nm; L cs] -> NDir (by_of nm, List.map node_of cs)
+        | _ -> raise (Parse_error "node") in
+      let cs = (match tree with L l -> List.map node_of l | _ -> raise (Parse_error "tree")) in
+      id ^ "\t" ^ paren (List.map (fun p -> paren (List.map atom_of_bytes (get_file_list (split_slash (by_of p) []) cs []))) pats)
   | L (A id :: A "check" :: A ctx :: [L stmts]) ->
       let c = if ctx = "predicate" then CtxPredicate else CtxTransform in
       (match check_ok c (pstmts_of stmts) with
